@@ -31,7 +31,8 @@ def one(pid, name, diff, tier, seed="1"):
         r = run(["git", "-C", w, "apply", "--whitespace=nowarn", diff])
         if r.returncode:
             return {"name": name, "error": "apply failed: " + r.stdout[-300:]}
-        env = dict(os.environ, VERIF_REPO=w, VERIF_SEED=seed, VERIF_MAX_WALL=os.environ.get("VERIF_MAX_WALL", "600"))
+        env = dict(os.environ, VERIF_REPO=w, VERIF_SEED=seed, VERIF_MAX_WALL=os.environ.get("VERIF_MAX_WALL", "600"),
+                   VERIF_EVIDENCE_DIR=os.path.join(SCRATCH, "selftest-evidence"), VERIF_REPLAY_DIR=os.path.join(SCRATCH, "selftest-replays"))
         t0 = time.time()
         r = run(["/venv/bin/python", "-m", "vf.check", pid, "--tier", tier], cwd=VERIF, env=env)
         lines = [l for l in r.stdout.splitlines() if l.startswith("VIOLATION") or l.startswith("detail[") or "HARNESS" in l]
